@@ -245,6 +245,11 @@ class Check:
                                                            "" if found else " no-failing-input-found"))
         if paths:
             return 1
+        # disk space is limited: the harnesses' scratch directories (saved iterates, Interfile files, ...) are only needed
+        # to replay a violation
+        for d in glob.glob(os.path.join(OUT, self.prop.lower() + "*")):
+            if os.path.isdir(d):
+                shutil.rmtree(d, ignore_errors=True)
         print("OK property=%s tier=%s wall=%.1fs" % (self.prop, self.tier, wall))
         return 0
 
